@@ -160,7 +160,9 @@ def check_molecule(g, mol: Mol, text):
                     got = dist_numbers(str(e.distribution))
                     exp = (a.dist.fam, [float(p) for p in a.dist.par])
                     if got is None or got[0] != exp[0] or len(got[1]) != len(exp[1]) or any(abs(x - y) > 1e-9 * max(1, abs(y)) for x, y in zip(got[1], exp[1])):
-                        out.append(("distribution", f"{text} element {i + 1}: distribution parsed as {e.distribution}, written {a.dist.text()}"))
+                        trunc = (exp[0] == "uniform" and got is not None and got[0] == "uniform" and len(got[1]) == 2
+                                 and all(abs(x - int(y)) < 1e-12 for x, y in zip(got[1], exp[1])) and any(y != int(y) for y in exp[1]))
+                        out.append(("distribution:uniform-parameters-truncated-to-integers" if trunc else "distribution", f"{text} element {i + 1}: distribution parsed as {e.distribution}, written {a.dist.text()}"))
     return out
 
 
@@ -221,6 +223,9 @@ def run(tier):
     mols = I.core_instances() + I.extra_instances() + I.chem_instances(tier)
     for k in range(40 if tier == "quick" else 400):
         mols.append(I.random_instance(rnd, "small"))
+    from .gast import M, S
+    mols.append(M("C[>]", S("[>]", ["[<]CC[>]"], [], "[<]", ("uniform", [12.7, 72.9])), "[<]O", name="uniform-non-integer"))
+    mols.append(M("C[>]", S("[>]", ["[<]CC[>]"], [], "[<]", ("uniform", [20.0, 90.0])), "[<]O", name="uniform-float-syntax"))
     for m in mols:
         if any(d.implicit for t in m.tokens() for d in t.descs):
             continue   # automatic insertion is C01's / the molecule syntax's matter
@@ -229,9 +234,25 @@ def run(tier):
             n_mol += 1
             for key, msg in check_molecule(g, m, text):
                 v.violation(f"C02:{key}", msg, {"text": text})
+    # mixture specifiers in every float syntax
+    n_mix = 0
+    for txt, kind, val in ((".|.5%|", "pct", 0.5), (".|5000|", "abs", 5000.0), (".|25%|", "pct", 25.0), (".|2.|", "abs", 2.0), (".|5e2|", "abs", 500.0),
+                           (".| 10 %|", "pct", 10.0), (".|1234.|", "abs", 1234.0), (".|.25|", "abs", 0.25), (".|0.5%|", "pct", 0.5), (".|100%|", "pct", 100.0),
+                           (".|1e-1%|", "pct", 0.1), (".|  750  |", "abs", 750.0)):
+        n_mix += 1
+        for where, make in (("Mixture", lambda t: g.Mixture(t)), ("Molecule", lambda t: g.Molecule("CCO" + t).mixture)):
+            try:
+                mx = make(txt)
+                got = mx.relative_mass if kind == "pct" else mx.absolute_mass
+                other = mx.absolute_mass if kind == "pct" else mx.relative_mass
+                if got is None or abs(got - val) > 1e-12 * max(1, abs(val)) or other is not None:
+                    v.violation("C02:mixture-value", f"{where}({txt!r}) denotes {val} {'%' if kind == 'pct' else 'absolute'} but is read as "
+                                f"relative={mx.relative_mass} absolute={mx.absolute_mass}", {"text": txt})
+            except Exception as exc:
+                v.violation("C02:mixture-rejected", f"{where}({txt!r}) raises {type(exc).__name__}: {exc}", {"text": txt})
     v.coverage = {"states": r.distinct, "transitions": r.generated, "traces_validated_against_impl": n_cmp + n_mol,
                   "token_texts_enumerated_by_TLC": len(toks), "max_symbols": L, "concretisations_per_text": K,
-                  "specification_meaning_vs_RDKit_mismatches": spec_mismatch, "molecule_strings_compared": n_mol,
+                  "specification_meaning_vs_RDKit_mismatches": spec_mismatch, "molecule_strings_compared": n_mol, "mixture_specifiers_compared": n_mix,
                   "samples": samples}
     v.assumptions = ["RDKit's SMILES semantics with the descriptor written as an isotope-labelled dummy atom is the reference meaning of a token",
                      "TokenScan's alphabet: atoms, branches, = and #, up to two ring bonds, descriptors; aromatic / stereo tokens only in the hand-written library"]
